@@ -49,6 +49,10 @@ def s1_loop_table(ctx):
             bad += 1
             ctx.violation('C14.S1', 'every event is processed to the end of the loop body', fn.site(), '%s: body ends with %s' % (v, outcome), key='C14.S1|outcome')
             continue
+        if got != exp and any(str(u_).startswith('unread:') for u_ in unknown):
+            ctx.undecided('C14.S1', 'per event: broker.update once; signals at closes; rebalance iff scheduled and not before burn-in; equity point iff close and not before burn-in',
+                          fn.site(), [u_ for u_ in unknown if str(u_).startswith('unread:')][0])
+            return
         if got != exp:
             bad += 1
             what = [k for k in exp if got[k] != exp[k]]
